@@ -205,7 +205,8 @@ C14_Head(req, h, t0, t1) ==
      /\ h.ar.k = "val" /\ h.ar.lc = "bytes"
      /\ IF req.ent.etag.k = "tag" THEN h.etag.k = "val" /\ h.etag.v = req.ent.etagv
         ELSE h.etag.k = "none"
-     /\ (req.ent.mt.k = "t") =>
+     \* (a modification time before 1970 has no HTTP-date: nothing is said about Date / Last-Modified then)
+     /\ (req.ent.mt.k = "t" /\ req.ent.mt.s >= 0) =>
            /\ h.date.k = "secs" /\ t0 <= h.date.v /\ h.date.v <= t1
            /\ h.lm.k = "secs" /\ h.lm.v <= h.date.v
            /\ (req.ent.mt.s <= t0) => h.lm.v = req.ent.mt.s
@@ -568,7 +569,8 @@ ImplHead(req, now) ==
                etag |-> IF ent.etag.k = "tag" THEN [k |-> "val", v |-> ent.etagv] ELSE None,
                date |-> IF ent.mt.k = "t" THEN [k |-> "secs", v |-> now] ELSE None,
                lm |-> IF ent.mt.k = "t"
-                      THEN [k |-> "secs", v |-> IF ent.mt.s < now THEN ent.mt.s ELSE now] ELSE None,
+                      THEN [k |-> "secs", v |-> IF ent.mt.s < 0 THEN 0 ELSE IF ent.mt.s < now THEN ent.mt.s ELSE now]
+                      ELSE None,
                allow |-> None, eh |-> <<>>, body |-> [k |-> "empty"]]
       allEh == [i \in 1..ent.nh |-> i]
       kept == ImplRangeKept(abs, ent)
